@@ -38,6 +38,7 @@ frame_st = st.fixed_dictionaries({
     'img': st.one_of(st.none(), gen.image_spec(max_dim=120, layouts=('contig', 'colstride', 'rowstride', 'fortran')), gen.image_spec(max_dim=120, layouts=('contig', 'colstride', 'rowstride', 'fortran'))),
     'kind': st.sampled_from(['raw', 'raw', 'jpg_undecoded', 'jpg_decoded']),
     'jpg_head': st.sampled_from(['jfif', 'jfif', 'exif_first', 'comment_first', 'bare']),   # what follows the SOI marker of a jpg-backed frame
+    'jpg_gray': st.sampled_from([False, False, True]),     # the JPEG behind a colour frame was encoded from a single-channel picture (a grayscale .jpg uploaded as BGR/RGB)
     'data': st.one_of(st.just({}), gen.json_dict, gen.json_dict),
 })
 case_st = st.fixed_dictionaries({
@@ -58,7 +59,10 @@ def build_frame(spec):
     fmt = spec['img']['fmt']
     if spec['kind'] == 'raw':
         return Frame(img, data, fmt), img
-    ok_, buf = cv2.imencode('.jpg', img)
+    src = img
+    if spec.get('jpg_gray') and fmt != 'GRAY':
+        src = np.ascontiguousarray(img[:, :, 1])      # one channel: the file has a single component
+    ok_, buf = cv2.imencode('.jpg', np.ascontiguousarray(src))
     assert ok_
     jpg = rehead(bytes(buf), spec.get('jpg_head', 'jfif'))
     _last_jpg['jpg'] = jpg
@@ -112,7 +116,12 @@ def run_case(case):
     np, cv2, MQ = _M['np'], _M['cv2'], _M['MQ']
     xs, pixels, jpgs = {}, {}, {}
     for topic, spec in case['frames']:
-        xs[topic], pixels[topic] = build_frame(spec)
+        try:
+            xs[topic], pixels[topic] = build_frame(spec)
+        except AssertionError as e:
+            if 'jpg decoded shape' not in str(e):
+                raise       # an assertion of this harness
+            return bad(f'{topic}: a {spec["img"]["fmt"]} frame backed by a valid JPEG does not decode to its declared shape: {e}', 'decode-shape:sender')
         jpgs[topic] = _last_jpg.get('jpg')
     specs = dict((t, s) for t, s in case['frames'])
     outs_jpg = case['outs_jpg']
@@ -183,6 +192,7 @@ def run_case(case):
         if not im['rw']: corner.append('read-only source')
         if sp['kind'] != 'raw': corner.append(sp['kind'])
         if sp['kind'] != 'raw' and sp.get('jpg_head', 'jfif') != 'jfif': corner.append('jpg without leading JFIF segment')
+        if sp['kind'] != 'raw' and sp.get('jpg_gray') and im['fmt'] != 'GRAY': corner.append('single-component jpg behind a colour frame')
         if not sp['data']: corner.append('image with empty data')
         if do_jpg and im['fmt'] == 'GRAY': corner.append('GRAY through jpg')
         if sp['kind'] != 'raw' and not do_jpg: corner.append('jpg-backed sent raw')
